@@ -74,6 +74,21 @@ ROUND4 = {
  "c20-10": ("C20", "the writer's trailing 'write id' block removed: ids only travel with the copied source attributes", "an element whose .id was assigned or changed on the object (r.id = 'shape0')", "caught from the start for built shapes (their ids are assigned on the object); the touch phase adds renamed and cleared ids of parsed elements"),
 }
 
+ROUND5 = {
+ "c09-11": ("C09", "z_point and _validate_close fall back in O(1) to 'where the path began' instead of searching for an end point", "data that begins with z, has no move before the trigger, and completes a curve or arc by an inline close ('z L 1 1 A 1 1 0 0 0 z'): TypeError out of parse, or a curve with control=None on which d/bbox/length raise", "caught from the start (fragments with a leading close followed by inline closes, added in round 2)"),
+ "c09-12": ("C09", "the ten L/T/Q/S/C branches become one table keyed by cmd.lower(), the command pattern compiled with re.IGNORECASE", "U+017F (long s) in command position: [s] matches it under IGNORECASE, its lower() is not 's', the table lookup raises KeyError", "missed at first (no junk character case-folds onto a command letter); caught after adding long s, Kelvin sign, dotless/dotted i, fullwidth and mathematical letters and digits to the junk characters"),
+ "c10-11": ("C10", "the CSS keyword inherit is honoured for inherited presentation properties; the 'nothing to inherit' branch deletes from the dictionary being iterated", "a property other than fill/stroke/color whose value is inherit with no ancestor value (a top-level stroke-width='inherit'): RuntimeError before the element's try", "missed at first (the fault grammar held only malformed text); caught after CSS-wide and paint keywords (inherit, initial, unset, currentColor, none, auto, transparent) were offered to every attribute kind and inside style declarations"),
+ "c10-12": ("C10", "currentColor chains are followed and color='currentColor' resolves to the inherited colour, the two steps in the wrong order", "one element with both color='currentColor' and fill/stroke='currentColor': SVG.parse never returns (a loop without a single function call)", "missed at first; caught after the keyword was put on both ends of its own chain on one element; reported by the line-step budget on the runs that count lines and by the wall-clock watchdog elsewhere (the coarse call counter cannot see a loop that calls nothing)"),
+ "c16-11": ("C16", "Subpath.reverse no longer swaps the trailing close itself ('both ends are given by the segments around it')", "a subpath that is exactly one close of non-zero length, Path(Close((0,0),(30,40))), which only the API can build", "missed at first (the general model has no place for a close without a subpath to return to); caught by a dedicated oracle for the API-built lone close: the one drawn segment is replaced by its own reversal, twice restores it"),
+ "c16-12": ("C16", "_reverse_segments re-links the segment after the reversed run only when it is the subpath's own close", "an open subpath reversed through a view when another subpath follows: the next move keeps a stale start; drawn geometry, d(), point, bbox, whole-path reverse and double reversal are all unaffected", "NOT caught, and not taken as a violation: a move's start is a back link that draws nothing, and the unmodified library itself leaves it stale whenever a closed subpath is reversed through its view (7000 of 30000 runs when I tried to demand it); 'a connected path' is judged on what is drawn (DESIGN.md 11)"),
+ "c17-11": ("C17", "Path.append runs _validate_close only when the close has no end yet", "a Close object that states an end taken from another outline appended by +, += or append: the subpath is not closed to its own move, following l/z data continues from the foreign point", "missed at first (pieces only ever arrived as text or as Path objects); caught after adding a last piece that arrives as a segment object from another outline (close, line, quadratic, cubic; +, +=, append; optionally followed by relative data)"),
+ "c17-12": ("C17", "Path.__add__ gets its own Subpath branch that slices the backing list with an exclusive end (the window is inclusive)", "Path(a) + path.subpath(i): the view's last segment (e.g. its z) is dropped", "missed at first (right operands were whole paths); caught after the right operand may be a subpath view of its path"),
+ "c18-11": ("C18", "Length.__isub__ negates the right operand in place, adds, negates back, without try/finally", "units that do not convert (10mm - 3px, 2em - 1cm): the ValueError leaves the right operand with its sign flipped", "missed at first (a derivation that raised was skipped); caught after requiring that an operator that cannot be evaluated has still not modified its operands"),
+ "c18-12": ("C18", "_RoundShape.segments() degenerate early return lost the restore of self.apply", "a circle or ellipse with a zero radius: Path(x), x + y, x == y leave apply=False on the operand", "caught from the start (degenerate radii were added in round 4)"),
+ "c20-11": ("C20", "stroke-width is written through the restate() helper (falsy values dropped)", "a stroke width of exactly 0 (source, API edit, or reify under a singular transform): dropped, read back as the default 1.0", "missed at first (no stroke width was ever 0); caught after adding 0 to the stroke widths of documents, built shapes and touches"),
+ "c20-12": ("C20", "the id is written through restate()", "an id that is falsy as a Python value ('' or '0'... dropped when falsy): reads back as None", "missed at first; caught after adding the ids '' and '0' to documents, built shapes and touches"),
+}
+
 
 def main():
     only = sys.argv[1:]
@@ -81,12 +96,16 @@ def main():
     table.update(ROUND2)
     table.update(ROUND3)
     table.update(ROUND4)
+    table.update(ROUND5)
     for sid, (prop, what, needs, history) in sorted(table.items()):
         if only and sid not in only:
             continue
         p, i = sid.split("-")
         src = "/tmp/seed-%s/_out" % p
-        if int(i) > 8:
+        if int(i) > 10:
+            src = "/tmp/seed5-%s/_out" % p
+            i = str(int(i) - 10)
+        elif int(i) > 8:
             src = "/tmp/seed4-%s/_out" % p
             i = str(int(i) - 8)
         elif int(i) > 6:
